@@ -384,8 +384,94 @@ def handler_traces(r, tier: str) -> List[dict]:
             loop.close()
             asyncio.set_event_loop(None)
 
+    def run_two(msgs_a: List[bytes], msgs_b: List[bytes], order: List[Tuple[str, int]]):
+        """two server connections at once: their bytes interleaved piecewise; each connection's stream must be framed on its own"""
+        loop = StepLoop(virtual=True)
+        asyncio.set_event_loop(loop)
+        try:
+            server_tcp.ConnectionHandler.connections = []
+            router = Router()
+            dev = Rec()
+            router.register_device(dev)
+            readers = {}
+            for name in ("A", "B"):
+                readers[name] = asyncio.StreamReader()
+                loop.create_task(server_tcp.ConnectionHandler.handler(router)(readers[name], FakeWriter(loop)))
+            loop.settle()
+            streams = {"A": b"".join(msgs_a), "B": b"".join(msgs_b)}
+            pos = {"A": 0, "B": 0}
+            calls = {"A": [], "B": []}
+            for name, n in order:
+                before = len(dev.got)
+                piece = streams[name][pos[name]:pos[name] + n]
+                if not piece:
+                    continue
+                pos[name] += len(piece)
+                readers[name].feed_data(piece)
+                loop.settle()
+                calls[name].append((pos[name], [m for m in dev.got[before:]]))
+            for name in ("A", "B"):
+                rest = streams[name][pos[name]:]
+                if rest:
+                    before = len(dev.got)
+                    readers[name].feed_data(rest)
+                    loop.settle()
+                    calls[name].append((len(streams[name]), [m for m in dev.got[before:]]))
+            return calls
+        finally:
+            for t in asyncio.all_tasks(loop):
+                t.cancel()
+            loop.settle(20)
+            loop.close()
+            asyncio.set_event_loop(None)
+
     texts = ["zażółć gęślą jaźń", "café ☃ \U0001f52d", "ÿþý \xe9\xe8", "日本語テキスト", "a > b & \u20ac"]
     out = []
+    # two connections of one server, interleaved: a message of A split around a whole message of B and vice versa
+    for si in range(6 if tier == "quick" else 80):
+        def mk(tag, k):
+            o = M.NewTextVector(device=tag, name="N%d" % k, children=[one_parts.OneText(name="e", value="%s-%d-%d" % (tag, si, k))])
+            return spell(o.to_xml(), r.choice([0, 2, 4, 16])).encode("latin1", "xmlcharrefreplace")
+        ma = [mk("A", k) for k in range(r.randint(1, 3))]
+        mb = [mk("B", k) for k in range(r.randint(1, 3))]
+        order = []
+        la, lb = len(b"".join(ma)), len(b"".join(mb))
+        while la > 0 or lb > 0:
+            name = r.choice(["A", "B"])
+            n = r.choice([1, 5, 17, 60, 200])
+            order.append((name, n))
+            if name == "A":
+                la -= n
+            else:
+                lb -= n
+        calls = run_two(ma, mb, order)
+        for name, msgs_x in (("A", ma), ("B", mb)):
+            layout, p0 = [], 0
+            for j, b in enumerate(msgs_x):
+                layout.append({"id": j + 1, "first": p0 + 1, "last": p0 + len(b.rstrip())})
+                p0 += len(b)
+            want = [view(IndiMessage.from_string(b.decode("latin1"))) for b in msgs_x]
+            ev, nxt = [], 0
+            for fed, ms in calls[name]:
+                ids, gen = [], []
+                for m in ms:
+                    vw = view(m)
+                    if vw[1] and dict(vw[1]).get("device") != name:
+                        continue                      # the other connection's message, delivered while this one was being fed
+                    ident = 0
+                    for j in range(nxt, len(want)):
+                        if want[j] == vw:
+                            ident, nxt = j + 1, j + 1
+                            break
+                    ids.append(ident)
+                    gen.append(1 if ident else 0)
+                if ev and fed <= ev[-1]["fed"]:
+                    ev[-1]["ids"] += ids
+                    ev[-1]["genuine"] += gen
+                else:
+                    ev.append({"fed": fed, "ids": ids, "genuine": gen, "dlen": 0, "raised": ""})
+            out.append({"thr": 2048, "clean": 1, "msgs": layout, "ev": ev,
+                        "text": f"[server connection {name} of two interleaved connections] " + b"".join(msgs_x).decode("latin1")})
     nstreams = 12 if tier == "quick" else 120
     for si in range(nstreams):
         kind = ["client", "blob", "server"][si % 3]
